@@ -125,8 +125,8 @@ theorem merge_cost {w w' : Nat → Nat} {z a b : Nat} (hz : w' z = w a + w b) :
       refine ⟨node i V r, R ++ r.leaves, ?_, ?_, ?_, ?_⟩
       · simpa [leaves] using h1.append_right r.leaves
       · simpa [leaves] using h2.append_right r.leaves
-      · simp [weight, h3, hc.1]
-      · simp only [cost, weight, h3, hc.1, hc.2]; omega
+      · simp only [weight, h3, hc.1]
+      · simp only [cost, h3, hc.1, hc.2]; omega
     · obtain ⟨V, R, h1, h2, h3, h4⟩ := merge_cost hz r hs hzt.2 hwr
       have hc := weight_cost_congr (w := w') (w' := w) l hwl
       refine ⟨node i l V, l.leaves ++ R, ?_, ?_, ?_, ?_⟩
@@ -136,8 +136,8 @@ theorem merge_cost {w w' : Nat → Nat} {z a b : Nat} (hz : w' z = w a + w b) :
         exact List.perm_middle
       · simp only [leaves]
         exact (h2.append_left l.leaves).trans List.perm_middle
-      · simp [weight, h3, hc.1]
-      · simp only [cost, weight, h3, hc.1, hc.2]; omega
+      · simp only [weight, h3, hc.1]
+      · simp only [cost, h3, hc.1, hc.2]; omega
 
 end Tree
 
